@@ -346,6 +346,10 @@ matrixSslCreateIdentity(sslKeys_t *keys, psPubKey_t idkey, psX509Cert_t *cert)
     identity = matrixSslMakeIdentity(keys->pool, idkey, cert);
     if (identity == NULL)
     {
+        /* The callers hand the key and the chain over for good (the other
+           failure below releases them through matrixSslFreeIdentity). */
+        psX509FreeCert(cert);
+        psClearPubKey(&idkey);
         return NULL;
     }
 
